@@ -291,7 +291,8 @@ def run(ck):
         ok = len(names) == len(flow.atoms_of(f)) == 2 and flow.equivalent(flow.rename(f, names), flow.parse_formula('not GIVEN or EQUAL'))[0]
     ck.ob('DT-interaction-match', molmod.loc(im), ok, 'an interaction matches a template on its parameters when the template gives none or the full parameter tuples are equal (`{}`)'.format(
         u(pmd)[:120] if pmd is not None else '?'), key='DT-interaction-match|parameters')
-    ck.ob('DT-interaction-match', molmod.loc(im), amd is not None and u(amd) == 'tuple(template_interaction.atoms) == tuple(interaction.atoms)',
+    ck.ob('DT-interaction-match', molmod.loc(im), amd is not None and isinstance(amd, ast.Compare) and len(amd.ops) == 1 and isinstance(amd.ops[0], ast.Eq) and
+          {u(amd.left), u(amd.comparators[0])} == {'tuple(template_interaction.atoms)', 'tuple(interaction.atoms)'},
           'and on its atoms when the atom tuples are equal, in order', key='DT-interaction-match|atoms')
     rets = stmts_with_env(im, lambda s_: isinstance(s_, ast.Return))
     attr_false = [r for r in rets if try_fold(r[0].value, default=1) is False and any('attributes_match(' in atom_text(k) for k in flow.atoms_of(r[1]))]
